@@ -191,6 +191,12 @@ type spendPlan struct {
 
 // build: phase 1 derives every spent scriptPubKey (BIP341 digests commit to all of them), phase 2 signs.
 func (m *Multi) build() *Built {
+	c, plans := m.plan()
+	return m.sign(c, plans)
+}
+
+// plan: phase 1 - the scripts and scriptPubKeys of the spends (they depend on the keys only, not on the transaction).
+func (m *Multi) plan() (Case, []spendPlan) {
 	c := m.Tx
 	c.Spent = append([]JOut{}, m.Tx.Spent...)
 	plans := make([]spendPlan, len(m.Spends))
@@ -254,6 +260,11 @@ func (m *Multi) build() *Built {
 		}
 		c.Spent[s.Idx].Pk = hx(p.spk)
 	}
+	return c, plans
+}
+
+// sign: phase 2.
+func (m *Multi) sign(c Case, plans []spendPlan) *Built {
 	t, sp := c.ref()
 	b := &Built{Tx: c}
 	for si := range m.Spends {
